@@ -1,5 +1,288 @@
-/- Model for C07 (core Lean only, no Mathlib). -/
+/-
+Model for C07 — "geometry reprojection and densification are faithful" (core Lean only).
+
+Modelled code (odc-geo with the two `fix:` commits of branch fix-C07 applied):
+
+* `densify`                      geom.py:439-464  → `shortEnough`, `loopPts`, `edge`, `densifyFrom`, `densify`
+* `Geometry.segmented`           geom.py:595-626  → `segmentize` / `segmentizeList` (recursion over kinds)
+* `Geometry._to_crs`, `to_crs`   geom.py:673-745  → `mapPts`, `toCrs`
+* `transformer_to_crs.result`    crs.py:325-334   → `harmonise`
+
+Coordinates live in an arbitrary type `K` with the field operations and a decidable order
+(only operation classes are required, so the same definitions run on `Rat` in the driver and
+are reasoned about over any linear ordered field — ℝ included — in `Props/C07.lean`).
+shapely is a parameter (`Env`): `len p q` is `LineString([p, q]).length`;
+`segment.interpolate(d)` is written out as `p1 + (d/len)(p2 - p1)` (its contract).
+The `while d < segment_length` loop is structural recursion on a fuel argument supplied by
+`Env.fuel`; theorems that depend on the loop having run to its exit carry the sufficiency of
+the fuel as a hypothesis, `fuelRat` is proved sufficient for `K = Rat`.
+`wrapdateline` and `check_and_fix` (both default `False`) are not modelled.
+-/
 import OdcGeo.Model.IO
+import OdcGeo.Model.C01
 namespace OdcGeo.C07
+
+structure Pt (K : Type) where
+  x : K
+  y : K
+  deriving DecidableEq, Repr
+
+/-- shapely, and the loop bound -/
+structure Env (K : Type) where
+  /-- `LineString([p, q]).length` -/
+  len : Pt K → Pt K → K
+  /-- an upper bound for the number of iterations of `while d < segment_length` -/
+  fuel : K → Pt K → Pt K → Nat
+
+section
+variable {K : Type} [Zero K] [Add K] [Sub K] [Mul K] [Div K] [LT K] [LE K] [DecidableLT K] [DecidableLE K]
+
+/-- squared distance `(p.x - q.x)**2 + (p.y - q.y)**2` -/
+def dist2 (p q : Pt K) : K := (p.x - q.x) * (p.x - q.x) + (p.y - q.y) * (p.y - q.y)
+
+/-- `short_enough(p1, p2)` as repaired: squared edge length `< resolution**2` -/
+def shortEnough (r : K) (p1 p2 : Pt K) : Bool := decide (dist2 p1 p2 < r * r)
+
+/-- `short_enough` as found before the fix (defect F3): `p1[0]**2 + p2[0]**2 < d2` -/
+def shortEnoughF3 (r : K) (p1 p2 : Pt K) : Bool := decide (p1.x * p1.x + p2.x * p2.x < r * r)
+
+/-- `segment.interpolate(d)` on the two-point segment of length `len` -/
+def interp (p1 p2 : Pt K) (len d : K) : Pt K :=
+  ⟨p1.x + d / len * (p2.x - p1.x), p1.y + d / len * (p2.y - p1.y)⟩
+
+/-- `while d < segment_length: new_coords.append(interpolate(d)); d += resolution` -/
+def loopPts (p1 p2 : Pt K) (len r : K) : Nat → K → List (Pt K)
+  | 0, _ => []
+  | fuel + 1, d => if d < len then interp p1 p2 len d :: loopPts p1 p2 len r fuel (d + r) else []
+
+/-- what one iteration of the `for p1, p2 in zip(coords[:-1], coords[1:])` loop appends -/
+def edge (short : K → Pt K → Pt K → Bool) (E : Env K) (r : K) (p1 p2 : Pt K) : List (Pt K) :=
+  (if short r p1 p2 then [] else loopPts p1 p2 (E.len p1 p2) r (E.fuel r p1 p2) r) ++ [p2]
+
+def densifyFrom (short : K → Pt K → Pt K → Bool) (E : Env K) (r : K) : Pt K → List (Pt K) → List (Pt K)
+  | _, [] => []
+  | p1, p2 :: rest => edge short E r p1 p2 ++ densifyFrom short E r p2 rest
+
+/-- `densify(coords, resolution)`; `short` is the length test (repaired or as found) -/
+def densifyWith (short : K → Pt K → Pt K → Bool) (E : Env K) (r : K) : List (Pt K) → Res (List (Pt K))
+  | [] => if r ≤ 0 then .error .valueError else .error .indexError   -- `coords[0]`
+  | p :: rest => if r ≤ 0 then .error .valueError else .ok (p :: densifyFrom short E r p rest)
+
+/-- `densify` of the repaired tree -/
+def densify (E : Env K) (r : K) (coords : List (Pt K)) : Res (List (Pt K)) :=
+  densifyWith shortEnough E r coords
+
+/-- `densify` before the `fix:` of F3 (kept for the counterexample; the r ≤ 0 guard is not part of it) -/
+def densifyF3 (E : Env K) (r : K) : List (Pt K) → Res (List (Pt K))
+  | [] => .error .indexError
+  | p :: rest => .ok (p :: densifyFrom shortEnoughF3 E r p rest)
+
+/-! ### geometries -/
+
+inductive Geom (K : Type) where
+  | point (p : Pt K)
+  | multiPoint (ps : List (Pt K))
+  | lineString (cs : List (Pt K))
+  | linearRing (cs : List (Pt K))
+  | polygon (ext : List (Pt K)) (holes : List (List (Pt K)))
+  | multiLineString (gs : List (Geom K))
+  | multiPolygon (gs : List (Geom K))
+  | collection (gs : List (Geom K))
+
+/-- `[densify(list(i.coords), resolution) for i in geom.interiors]` -/
+def densifyRings (E : Env K) (r : K) : List (List (Pt K)) → Res (List (List (Pt K)))
+  | [] => .ok []
+  | c :: cs => match densify E r c with
+    | .error e => .error e
+    | .ok c' => match densifyRings E r cs with
+      | .error e => .error e
+      | .ok cs' => .ok (c' :: cs')
+
+mutual
+/-- `segmentize_shapely(geom)` inside `Geometry.segmented` -/
+def segmentize (E : Env K) (r : K) : Geom K → Res (Geom K)
+  | .point p => .ok (.point p)
+  | .multiPoint ps => .ok (.multiPoint ps)
+  | .lineString cs => match densify E r cs with
+    | .error e => .error e
+    | .ok cs' => .ok (.lineString cs')
+  | .linearRing cs => match densify E r cs with
+    | .error e => .error e
+    | .ok cs' => .ok (.linearRing cs')
+  | .polygon ext holes => match densify E r ext with
+    | .error e => .error e
+    | .ok ext' => match densifyRings E r holes with
+      | .error e => .error e
+      | .ok holes' => .ok (.polygon ext' holes')
+  | .multiLineString gs => match segmentizeList E r gs with
+    | .error e => .error e
+    | .ok gs' => .ok (.multiLineString gs')
+  | .multiPolygon gs => match segmentizeList E r gs with
+    | .error e => .error e
+    | .ok gs' => .ok (.multiPolygon gs')
+  | .collection gs => match segmentizeList E r gs with
+    | .error e => .error e
+    | .ok gs' => .ok (.collection gs')
+/-- `[segmentize_shapely(g) for g in geom.geoms]` -/
+def segmentizeList (E : Env K) (r : K) : List (Geom K) → Res (List (Geom K))
+  | [] => .ok []
+  | g :: gs => match segmentize E r g with
+    | .error e => .error e
+    | .ok g' => match segmentizeList E r gs with
+      | .error e => .error e
+      | .ok gs' => .ok (g' :: gs')
+end
+
+end
+
+section
+variable {K : Type}
+
+mutual
+/-- `shapely.ops.transform(f, geom)`: every coordinate through `f`, nothing else touched -/
+def mapPts (f : Pt K → Pt K) : Geom K → Geom K
+  | .point p => .point (f p)
+  | .multiPoint ps => .multiPoint (ps.map f)
+  | .lineString cs => .lineString (cs.map f)
+  | .linearRing cs => .linearRing (cs.map f)
+  | .polygon ext holes => .polygon (ext.map f) (holes.map (fun h => h.map f))
+  | .multiLineString gs => .multiLineString (mapPtsList f gs)
+  | .multiPolygon gs => .multiPolygon (mapPtsList f gs)
+  | .collection gs => .collection (mapPtsList f gs)
+def mapPtsList (f : Pt K → Pt K) : List (Geom K) → List (Geom K)
+  | [] => []
+  | g :: gs => mapPts f g :: mapPtsList f gs
+end
+
+mutual
+/-- all vertices in storage order (exterior, then holes; parts in order) -/
+def vertices : Geom K → List (Pt K)
+  | .point p => [p]
+  | .multiPoint ps => ps
+  | .lineString cs => cs
+  | .linearRing cs => cs
+  | .polygon ext holes => ext ++ holes.flatten
+  | .multiLineString gs => verticesList gs
+  | .multiPolygon gs => verticesList gs
+  | .collection gs => verticesList gs
+def verticesList : List (Geom K) → List (Pt K)
+  | [] => []
+  | g :: gs => vertices g ++ verticesList gs
+end
+
+/-- geometry type and ring / part structure with the coordinates forgotten -/
+inductive Skel where
+  | point | multiPoint (n : Nat) | lineString | linearRing
+  | polygon (holes : Nat)
+  | multiLineString (gs : List Skel) | multiPolygon (gs : List Skel) | collection (gs : List Skel)
+  deriving Repr
+
+mutual
+def skel : Geom K → Skel
+  | .point _ => .point
+  | .multiPoint ps => .multiPoint ps.length
+  | .lineString _ => .lineString
+  | .linearRing _ => .linearRing
+  | .polygon _ holes => .polygon holes.length
+  | .multiLineString gs => .multiLineString (skelList gs)
+  | .multiPolygon gs => .multiPolygon (skelList gs)
+  | .collection gs => .collection (skelList gs)
+def skelList : List (Geom K) → List Skel
+  | [] => []
+  | g :: gs => skel g :: skelList gs
+end
+
+-- the coordinate sequences of a geometry (points as singletons), in storage order
+mutual
+def rings : Geom K → List (List (Pt K))
+  | .point p => [[p]]
+  | .multiPoint ps => ps.map (fun p => [p])
+  | .lineString cs => [cs]
+  | .linearRing cs => [cs]
+  | .polygon ext holes => ext :: holes
+  | .multiLineString gs => ringsList gs
+  | .multiPolygon gs => ringsList gs
+  | .collection gs => ringsList gs
+def ringsList : List (Geom K) → List (List (Pt K))
+  | [] => []
+  | g :: gs => rings g ++ ringsList gs
+end
+
+end
+
+/-! ### `to_crs` -/
+
+/-- the `resolution` argument of `to_crs` -/
+inductive Resolution (K : Type) where
+  | none               -- `None`
+  | auto               -- `"auto"`
+  | val (r : K)        -- a finite number
+  | nonfinite          -- `inf` / `nan`: `math.isfinite` is false
+
+structure Tagged (K : Type) where
+  crs : C01.Tag
+  geom : Geom K
+
+section
+variable {K : Type} [Zero K] [Add K] [Sub K] [Mul K] [Div K] [LT K] [LE K] [DecidableLT K] [DecidableLE K]
+
+/-- `Geometry.to_crs(crs, resolution)` with `wrapdateline=False, check_and_fix=False`.
+`proj s t` is `s.transformer_to_crs(t)` (pyproj), `autoRes g` is `_auto_resolution(g)`. -/
+def toCrs (E : Env K) (proj : C01.CrsRec → C01.CrsRec → Pt K → Pt K) (autoRes : Geom K → K)
+    (g : Tagged K) (target : C01.Tag) (res : Resolution K) : Res (Tagged K) :=
+  match target with
+  | none => .error .valueError                       -- norm_crs_or_error: "Expect valid CRS"
+  | some t =>
+    if C01.tagEq g.crs (some t) then .ok g            -- `if self.crs == crs: return self`
+    else match g.crs with
+      | none => .error .valueError                   -- "Cannot project geometries without CRS"
+      | some s =>
+        let r? : Option K := match res with
+          | .none => Option.none
+          | .nonfinite => Option.none
+          | .auto => some (autoRes g.geom)
+          | .val r => some r
+        let densified : Res (Geom K) := match r? with
+          | Option.none => .ok g.geom
+          | some r => if 0 < r then segmentize E r g.geom else .ok g.geom
+        match densified with
+        | .error e => .error e
+        | .ok geom => .ok ⟨some t, mapPts (proj s t) geom⟩
+
+end
+
+/-! ### NaN harmonisation of `transformer_to_crs` (numpy-array branch) -/
+
+inductive Coord (K : Type) where
+  | fin (v : K)
+  | nan
+  deriving DecidableEq, Repr
+
+/-- `missing = isnan(rx) | isnan(ry); rx[missing] = nan; ry[missing] = nan` for one point -/
+def harmonise {K : Type} : Coord K × Coord K → Coord K × Coord K
+  | (.fin x, .fin y) => (.fin x, .fin y)
+  | _ => (.nan, .nan)
+
+/-! ### the executable instance: `K = Rat` -/
+
+/-- exact square root of a non-negative rational when it is rational -/
+def ratSqrt? (q : Rat) : Option Rat :=
+  if q < 0 then none
+  else
+    let n := q.num.toNat
+    let d := q.den
+    let sn := Nat.sqrt n
+    let sd := Nat.sqrt d
+    if sn * sn = n ∧ sd * sd = d then some (mkRat sn sd) else none
+
+/-- enough fuel for `while d < L` over `Rat`: the loop runs at most `⌈D2/r²⌉` times -/
+def fuelRat (r : Rat) (p q : Pt Rat) : Nat :=
+  if r ≤ 0 then 0 else (Rat.ceil (dist2 p q / (r * r))).toNat + 1
+
+/-- number of vertices the loop inserts, decided on squares alone (no square root):
+the least `n` with `((n+1)·r)² ≥ D2`, counted by the same loop on `d*d < D2` -/
+def countSq (D2 r : Rat) : Nat → Rat → Nat
+  | 0, _ => 0
+  | fuel + 1, d => if d * d < D2 then countSq D2 r fuel (d + r) + 1 else 0
 
 end OdcGeo.C07
